@@ -76,7 +76,7 @@ def rt(shape, seed: int, profile: str = "normal", dtype=D, salt: int = 0) -> tor
 
 # ------------------------------------------------------------------ strategies
 
-mults = st.one_of(st.sampled_from([0.25, 1.0, 4.0, 1 / 16, 16.0]),
+mults = st.one_of(st.sampled_from([0.25, 1.0, 4.0, 1 / 16, 16.0, 1, 2, 4]),
                   st.floats(math.log(1 / 16), math.log(16)).map(lambda v: round(math.exp(v), 6)))
 batches = st.lists(st.integers(1, 4), min_size=0, max_size=3)
 seeds = st.integers(0, 10**6)
@@ -172,6 +172,7 @@ def op_cases(draw, ops=None, dtypes=None, constraint=None, unsupported_rate=0.0,
     elif op == "mse_loss":
         c.update(shape=b + [draw(st.integers(1, 6))], reduction=draw(st.sampled_from(["mean", "sum", "default"])))
     c["seedA"] = draw(seeds); c["seedB"] = draw(seeds); c["seedG"] = draw(seeds)
+    c["noncontig"] = draw(st.integers(0, 4)) == 0  # operands with permuted strides (same values)
     # the second data draw uses its own value profile: a scale that depends on magnitudes / sparsity is exposed
     c["profB"] = draw(st.sampled_from(profiles))
     if unsupported_rate and op in UNSUPPORTED and draw(st.floats(0, 1)) < unsupported_rate:
@@ -198,7 +199,11 @@ def ckw(c) -> dict:
 
 def build(c: dict, seed: int, unsupported: Optional[Tuple[str, Any]] = None, prof: Optional[str] = None) -> Built:
     op = c["op"]; pr = prof or c["prof"]; dt = DT[c["dtype"]]
-    T = lambda shape, k=0, prof=None: rt(shape, seed + k, prof or pr, dt)  # noqa: E731
+    def T(shape, k=0, prof=None):
+        t = rt(shape, seed + k, prof or pr, dt)
+        if c.get("noncontig") and t.dim() >= 2:
+            t = t.transpose(-1, -2).contiguous().transpose(-1, -2)  # same values, non-contiguous strides
+        return t
     ukw: Dict[str, Any] = {}
     if unsupported is not None:
         name, val = unsupported
